@@ -24,23 +24,30 @@ Record dstate := mkD {
 Definition d_init (plan : list answer) : dstate := mkD plan 0 0 [].
 
 Definition hpm_device : device dstate := fun s q =>
+  let invalid := (s, RBytes [0xc1]) in     (* invalid command / malformed request *)
   if (q_netfn q =? 0x2c) && (q_lun q =? 0) then
-    match q_cmd q, q_data q with
-    | 0x32, 0 :: number :: data =>
-        let s' k := mkD (d_plan s) (S (d_count s)) k (d_received s ++ [(number, data)]) in
-        match nth (d_count s) (d_plan s) Accept with
-        | Accept => (s' 0%nat, RBytes [0x00; 0x00])
-        | InProgress k => (s' k, RBytes [0x80; 0x00])
-        | Fail cc => (s' 0%nat, RBytes [cc; 0x00])
-        end
-    | 0x34, [0] =>
-        match d_pending s with
-        | O => (s, RBytes [0x00; 0x00; 0x32; 0x00])
-        | S k => (mkD (d_plan s) (d_count s) k (d_received s), RBytes [0x00; 0x00; 0x32; 0x80])
-        end
-    | _, _ => (s, RBytes [0xc1])     (* invalid command / malformed request *)
-    end
-  else (s, RBytes [0xc1]).
+    if q_cmd q =? 0x32 then
+      match q_data q with
+      | 0 :: number :: data =>
+          let s' k := mkD (d_plan s) (S (d_count s)) k (d_received s ++ [(number, data)]) in
+          match nth (d_count s) (d_plan s) Accept with
+          | Accept => (s' 0%nat, RBytes [0x00; 0x00])
+          | InProgress k => (s' k, RBytes [0x80; 0x00])
+          | Fail cc => (s' 0%nat, RBytes [cc; 0x00])
+          end
+      | _ => invalid
+      end
+    else if q_cmd q =? 0x34 then
+      match q_data q with
+      | [0] =>
+          match d_pending s with
+          | O => (s, RBytes [0x00; 0x00; 0x32; 0x00])
+          | S k => (mkD (d_plan s) (d_count s) k (d_received s), RBytes [0x00; 0x00; 0x32; 0x80])
+          end
+      | _ => invalid
+      end
+    else invalid
+  else invalid.
 
 (* a refusal is a completion code other than "ok" and "in progress" *)
 Definition answer_ok (a : answer) : bool :=
